@@ -760,7 +760,7 @@ private:
 		if (0 == rhs) return *this;
 		_zero = false;
 		_sign = (rhs < 0);
-		uint64_t raw = static_cast<uint64_t>(_sign ? -rhs : rhs);
+		uint64_t raw = _sign ? (0ull - static_cast<uint64_t>(rhs)) : static_cast<uint64_t>(rhs); // -rhs is undefined for the most negative value
 		_scale = static_cast<int>(find_msb(raw)) - 1; // precondition that msb > 0 is satisfied by the zero test above
 		constexpr unsigned sizeInBits = 8 * sizeof(Ty);
 		uint64_t shift = sizeInBits - _scale - 1;
